@@ -241,6 +241,46 @@ def _check_labels(case):
     return n, outcome, (kind, mode, geo, old == lab), viols
 
 
+def _check_nudged_reinsert(case):
+    """'replace' with an entry that is ALMOST the one it collides with (same label, a boundary moved by less than the tolerance the entries' own
+    == applies: a boundary re-measured, a drag of a few nanoseconds): the tier afterwards holds the NEW entry, to the last bit, and its span
+    contains it"""
+    kind, base, which, delta, lab, hi = case
+    if kind == "I":
+        old = (base, base + 1.0, "a")
+        new = (old[0] + (delta if which == "start" else 0.0), old[1] + (delta if which == "end" else 0.0), lab)
+        t = IT("t", [(0.0, 0.5, "z"), old] if base >= 0.5 else [old], 0.0, hi)
+    else:
+        old = (base, "a")
+        new = (base + delta, lab)
+        t = PT("t", [old], 0.0, hi)
+    st, r, _ = call(t.insertEntry, new, "replace", "silence")
+    got = [tuple(e) for e in t.entries]
+    collides = (kind == "I" and new[0] < old[1] and new[1] > old[0]) or (kind == "P" and new[0] == old[0])
+    want = [e for e in got if e[-1] == "z"] + ([new] if collides else sorted([old, new]))
+    viols = []
+    if st == "exc":
+        viols.append(Viol("insert-raised:" + type(r).__name__, f"insertEntry({new!r}, 'replace', 'silence') on a tier holding {old!r}: {r!r}"))
+    elif got != want or not (t.minTimestamp <= new[0] and new[-2] <= t.maxTimestamp):
+        viols.append(Viol("nudged-entry-not-stored", f"insertEntry({new!r}, 'replace', 'silence') on a tier holding {old!r} (span 0..{hi}): the tier now holds {got} with span "
+                                                     f"({t.minTimestamp!r}, {t.maxTimestamp!r}); expected {want}"))
+    return 1, "ok", (kind, which, delta > 0, lab), viols
+
+
+def _nudged_cases():
+    for base in (1.0, 3600.0, 0.0):
+        for rel in (5e-10, -5e-10, 1e-12, -1e-12, 2e-9):
+            delta = rel * max(base + 1.0, 1.0)
+            for which in ("start", "end"):
+                if base == 0.0 and which == "start" and delta < 0:
+                    continue
+                for lab in ("a", "b"):
+                    for hi in (base + 1.0, base + 2.0):
+                        yield ("I", base, which, delta, lab, hi)
+        for rel in (5e-10, 1e-12):
+            yield ("P", base, "time", rel * max(base, 1.0), "a", base + 2.0)
+
+
 def _label_cases():
     for kind in ("I", "P"):
         for old in SPECIAL:
@@ -463,6 +503,10 @@ def parts(tier):
     ps.append(InputPart("live-sequences-points", lambda: ((s0, op1) for s0 in live_pt for op1 in _ops_pt(pvals)(s0)),
                         lambda c: _check_live(c, _ops_pt(pvals), _step_pt),
                         rule="the same for point tiers", bounds={"sequence_length": 2}, chunk=2))
+    ps.append(InputPart("replace-by-a-nudged-copy", _nudged_cases, _check_nudged_reinsert,
+                        rule="'replace' with an entry that differs from the one it collides with by 1e-12 .. 2e-9 (relative) in one boundary, at 1 s, 3600 s and 0, with "
+                             "the same and with another label, the tier ending at / after the entry: the tier holds the new entry bit for bit and its span contains it",
+                        bounds={}))
     ps.append(InputPart("special-character-labels", _label_cases, _check_labels,
                         rule="one insertEntry (overlapping / touching / identical extent; same / other time) on a one-entry tier, then deleteEntry of "
                              "every entry left, for every ordered pair of labels from %d texts that contain printf, str.format, regex, escape and "
